@@ -88,8 +88,8 @@ def brief(x):
 
 
 @contextlib.contextmanager
-def open_traces(inp, A):
-    """Build the recording object named by inp['backend'] holding exactly the array A."""
+def open_traces(inp, A, d=None):
+    """Build the recording object named by inp['backend'] holding exactly the array A (files go to d)."""
     backend = inp['backend']
     cs = inp.get('cs', 1)
     sizes = inp['sizes']
@@ -97,7 +97,7 @@ def open_traces(inp, A):
     if backend == 'ndarray':
         yield A.copy()
         return
-    with tempdir() as d:
+    with (tempdir() if d is None else contextlib.nullcontext(d)) as d:
         if backend == 'cbin':
             import mtscomp
             nt = inp.get('nt', 1)
@@ -193,7 +193,7 @@ def case_export(inp):
     exp = windows(A, spikes, nsw, chans, True).reshape((len(spikes), nsw, ncl)).astype(np.float64) * f
     with tempdir() as d2:
         p = os.path.join(d2, 'w.npy')
-        with open_traces(inp, A) as tr, quiet():
+        with open_traces(inp, A, d2) as tr, quiet():
             T.export_waveforms(p, tr, spike_arg(spikes, inp['sdtype']), sc, n_samples_waveforms=nsw,
                                cache=inp.get('cache', False), sample2unit=f)
         arr, err = _load_npy(p)
@@ -369,17 +369,34 @@ _EXPORT_CLAUSES = {
 _SPIKE_CASES = ('direct', 'iter', 'export', 'model')
 
 
+def _live_spikes(case, inp):
+    """Spikes whose channel list names at least one real channel (an all -1 list gives zeros whatever the rows)."""
+    ch = inp.get('channels')
+    if case == 'direct':
+        return inp['spikes'] if any(c != -1 for c in ch) else []
+    if case in ('iter', 'export'):
+        return [s for s, row in zip(inp['spikes'], ch) if any(c != -1 for c in row)]
+    return inp['spikes']
+
+
 def _unsigned_below_half_window(case, clause, inp):
     """DESIGN 6 row 2: `sample - nsw//2` wraps for an unsigned NumPy sample smaller than nsw//2."""
-    return (case in _SPIKE_CASES and clause in _WINDOW_CLAUSES and str(inp['sdtype']).startswith('uint')
-            and any(s < inp['nsw'] // 2 for s in inp['spikes']))
+    if case not in _SPIKE_CASES or clause not in _WINDOW_CLAUSES or not str(inp['sdtype']).startswith('uint'):
+        return False
+    n, dur = inp['nsw'], sum(inp['sizes'])
+    live = _live_spikes(case, inp)
+    # in-memory array + all -1 channel list: the wrapped (empty) read is still right when the window also overhangs
+    # the end; readers raise on the empty read in every case
+    lenient = inp.get('backend') == 'ndarray'
+    return any(s < n // 2 and (not lenient or s in live or s - n // 2 + n <= dur) for s in inp['spikes'])
 
 
 def _window_overhangs_both_ends(case, clause, inp):
     """DESIGN 6 row 4: recording shorter than the window, window sticking out on both sides."""
+    if case not in _SPIKE_CASES or clause not in _WINDOW_CLAUSES:
+        return False
     dur, n = sum(inp['sizes']), inp['nsw']
-    return (case in _SPIKE_CASES and clause in _WINDOW_CLAUSES
-            and any(s - n // 2 < 0 and s - n // 2 + n > dur for s in inp['spikes']))
+    return any(s - n // 2 < 0 and s - n // 2 + n > dur for s in _live_spikes(case, inp))
 
 
 def _export_bytes_not_float64(case, clause, inp):
@@ -488,7 +505,7 @@ def enumerate_cases(ctx):
         for backend, sizes in layouts:
             for nsw in NW:
                 for sd in ('int64', 'uint64', 'uint32'):
-                    if sd == 'uint32' and backend != 'flat':
+                    if sd == 'uint32' and (backend != 'flat' or (quick and dur < D)):
                         continue
                     for vec in split_spikes(dur, nsw, sd, list(range(dur))):
                         k += 1
@@ -497,7 +514,7 @@ def enumerate_cases(ctx):
                                            'offset': 3 if (dur % 2 and backend == 'flat') else 0})
 
     # ---- C. chunk-by-chunk routes: iter_waveforms and export_waveforms -------------------------------------
-    D, L = (4, 3) if quick else (6, 3)
+    D, L = (4, 3) if quick else (6, 3)   # quick: length-3 vectors exhaustive for dur<=3, length<=2 + three triples at dur=4
     ctx.scope('iter+export/flat: EXHAUSTIVE over (dur<=%d, every split into 1..3 files, every chunk size 1..dur, every sorted spike vector with '
               'ties of length 0..%d and the vector of all positions); window, spike type, per-spike channel rows (with/without -1), sample type and '
               'unit factor rotate deterministically over 1..6, %s, 6 row patterns, %s, %s' % (D, L, SDTYPES, DTYPES, FACTORS))
@@ -505,7 +522,10 @@ def enumerate_cases(ctx):
     for dur in range(1, D + 1):
         for sizes in _compositions(dur, 3):
             for cs in range(1, dur + 1):
-                vecs = list(multisets(dur, L)) + ([list(range(dur))] if dur > L else [])
+                Ld = 2 if (quick and dur == D) else L
+                vecs = list(multisets(dur, Ld)) + ([list(range(dur))] if dur > Ld else [])
+                if Ld < L:
+                    vecs += [[0, 0, dur - 1], [0, dur - 2, dur - 1], [1, 2, 2]]
                 for vec in vecs:
                     k += 1
                     nsw = 1 + k % 6
@@ -513,6 +533,10 @@ def enumerate_cases(ctx):
                     base = {'backend': 'flat', 'sizes': list(sizes), 'cs': cs, 'nch': nch, 'nsw': nsw, 'spikes': vec, 'sdtype': sd,
                             'channels': per_spike_channels(len(vec), nch, k), 'ncl': 2}
                     ctx.run('iter', dict(base, dtype=DTYPES[k % 3]))
+                    if sd.startswith('uint') and any(s < nsw // 2 for s in vec):
+                        # same chunking question for unsigned samples without the known wrap: window of one sample
+                        ctx.run('iter', dict(base, dtype=DTYPES[k % 3], nsw=1))
+                        ctx.run('export', dict(base, dtype='float64', factor=2.5, nsw=1))
                     # export: float64 recordings carry no known finding, so they get two thirds of the inputs
                     dt = ('float64', 'int16', 'float64', 'float32', 'float64', 'int16')[k % 6]
                     f = FACTORS[(k // 3) % 6]
@@ -526,17 +550,17 @@ def enumerate_cases(ctx):
                         e['query'] = list(dict.fromkeys(e['query']))
                     ctx.run('export', e)
 
-    ctx.scope('iter+export/flat cross: recording [2,2] (thorough: also [2,3], [1,2,2]) x chunk sizes 1,2,3 x all sorted spike vectors of length<=2 and all '
-              'positions x windows 1..6 x spike types x 2 row patterns, float64 x factor 2.5')
-    recs = [[2, 2]] if quick else [[2, 2], [2, 3], [1, 2, 2]]
+    ctx.scope('iter+export/flat cross: recording [2,2] (thorough: also [1,2,2]) x chunk sizes 1,2,3 x all sorted spike vectors of length<=2 and all '
+              'positions x windows 1..6 (quick: 1..5) x spike types x row patterns, float64 x factor 2.5')
+    recs = [[2, 2]] if quick else [[2, 2], [1, 2, 2]]
     sds = ('int64', 'uint64') if quick else ('int64', 'uint64', 'int32', 'uint32')
     for sizes in recs:
         dur = sum(sizes)
         for cs in (1, 2, 3):
             for vec in list(multisets(dur, 2)) + [list(range(dur))]:
-                for nsw in range(1, 7):
+                for nsw in range(1, 6 if quick else 7):
                     for sd in sds:
-                        for kk in (0, 2):
+                        for kk in ((len(vec) + nsw) % 3,) if quick else (0, 2):
                             base = {'backend': 'flat', 'sizes': sizes, 'cs': cs, 'nch': nch, 'nsw': nsw, 'spikes': vec, 'sdtype': sd,
                                     'channels': per_spike_channels(len(vec), nch, kk), 'ncl': 2, 'dtype': 'float64'}
                             ctx.run('iter', base)
@@ -548,14 +572,16 @@ def enumerate_cases(ctx):
             for nsw in (1, 4):
                 for sd in ('int64', 'uint64'):
                     for vec in ([1], [2, 3], [0, 2, 4], []):
-                        for cs in (1, 2):
+                        if quick and sd == 'uint64' and (nsw == 4 or len(vec) != 2):
+                            continue
+                        for cs in ((2,) if quick else (1, 2)):
                             for big in ((False, True) if dt == 'int16' else (False,)):
                                 ctx.run('export', {'backend': 'flat', 'sizes': [3, 2], 'cs': cs, 'nch': nch, 'nsw': nsw, 'spikes': vec, 'sdtype': sd,
                                                    'channels': per_spike_channels(len(vec), nch, cs), 'ncl': 2, 'dtype': dt, 'factor': f, 'big': big})
 
     ctx.scope('iter+export/other backends: array, npy, cbin (chunk durations 1..dur, n_threads 1..3 = batch sizes, cache on/off) with the vector of all '
               'positions, all pairs on a chunk boundary, and single spikes; windows 1..5')
-    durs = (5, 7) if quick else (4, 5, 7, 9)
+    durs = (5,) if quick else (4, 5, 7, 9)
     k = 0
     for dur in durs:
         for cs in range(1, dur + 1):
@@ -568,7 +594,7 @@ def enumerate_cases(ctx):
             vecs = [list(range(dur)), bl, [0, 0, dur - 1]] + [[s] for s in bl]
             for vec in vecs:
                 for backend, nt, cache in (('cbin', 1, False), ('cbin', 2, True), ('cbin', 3, True), ('cbin', 3, False), ('array', 1, False), ('npy', 1, False)):
-                    if quick and (backend, nt, cache) == ('cbin', 3, False):
+                    if quick and ((backend, nt, cache) == ('cbin', 3, False) or (backend == 'npy' and len(vec) == 1)):
                         continue
                     k += 1
                     nsw = 1 + k % 5
